@@ -33,6 +33,7 @@ type Case struct {
 	MaxEvents    int    `json:"maxev,omitempty"`
 	NoTrace      bool   `json:"notrace,omitempty"` // do not ship the event list back (only its hash/len)
 	Init         int    `json:"init,omitempty"`    // >0: InitState("n", Init), InitState("box", &Box{Init}), InitState("k<Init%3>", "init")
+	SharedOpts   bool   `json:"sharedopts,omitempty"` // the call also passes a package-level []Option (neutral values) that all calls share
 	DebugQuiet   bool   `json:"debugquiet,omitempty"` // Debug(true) without capturing the trace (concurrent mode: stdout is the null device)
 	StatsPre     uint64 `json:"statspre,omitempty"` // with Stats: the caller's Stats struct already holds this ExprCnt (it was used for an earlier parse)
 	Reader       bool   `json:"reader,omitempty"`  // call ParseReader instead of Parse, then parse something else through ParseReader and look at the first result again
